@@ -26,6 +26,10 @@ def configs(tier, seed):
   for i, (cr, up) in enumerate(wl):
     for shut in ([None, 4] if tier == 'quick' else [None, 1, 4, 1000]):
       cfgs.append(dict(name='writer/c%s/u%s/s%s' % (cr, up, shut), mode='writer', creates=cr, updates=up, shutdown=shut))
+  # the limit change at shutdown comes from the reactor thread while the writer thread is inside the bucket
+  for (up, shut) in ((5, 1), (8, 2), (12, 3)):
+    for st in (('sorted',) if tier == 'quick' else ('sorted', 'max')):
+      cfgs.append(dict(name='sched/u%s/s%s/%s' % (up, shut, st), mode='sched', updates=up, shutdown=shut, strategy=st))
   return cfgs
 
 
@@ -204,9 +208,87 @@ def run_writer(cfg, res):
     res.sample(dict(cfg=cfg['name'], creates=len(cgr), updates=len(ugr), droppedCreates=dropped, span=vt.offset), cap=2)
 
 
+def run_sched(cfg, res):
+  """Two real threads: the writer loop under MAX_UPDATES_PER_SECOND and the reactor thread delivering the stop
+  (shutdownModifyUpdateSpeed lowers the limits) at every line of the bucket code."""
+  from vlib import boot, cachesim, sched as S
+  ns = boot.boot('carbon-cache', {'MAX_UPDATES_PER_SECOND': cfg['updates'], 'MAX_UPDATES_PER_SECOND_ON_SHUTDOWN': cfg['shutdown'],
+                                  'CACHE_WRITE_STRATEGY': cfg['strategy'], 'MAX_CACHE_SIZE': 'inf'})
+  world = cachesim.World(ns, trace_files=('writer.py', 'util.py'))
+  r = gen.rng(cfg['seed'], 'C20s', cfg['name'])
+  up, shut = float(cfg['updates']), float(cfg['shutdown'])
+  for w in range(1 if cfg['tier'] == 'quick' else 4):
+    n1 = int(up) + r.randint(2, 4)         # enough distinct metrics to run the bucket dry
+    ops = [('store', 'q%d' % i, 999900) for i in range(n1)]
+    ops.append(('sleep', r.choice([20, 45, 90])))         # quiet period: the refill timestamp goes stale
+    n2 = int(up) + r.randint(2, 5)
+    ops += [('store', 'z%d' % i, 999950) for i in range(n2)]
+    ops.append(('sleep', r.choice([0.0, 0.001, 0.3])))
+    ops.append(('stop',))
+    seen = set()
+
+    def pre(h):
+      # the regime changes when setCapacityAndFillRate() has run, not when the stop was initiated
+      import carbon.writer as _w
+      b = _w.UPDATE_BUCKET
+      real = b.setCapacityAndFillRate
+      h.limit_change = None
+
+      def wrapped(cap, rate):
+        r_ = real(cap, rate)
+        h.limit_change = world.tick()
+        return r_
+      b.setCapacityAndFillRate = wrapped
+
+    def one(policy, desc):
+      h = world.run(ops, ('loop',), policy=policy, timeout=60, drain_rest=False, pre=pre)
+      res.count('sched_schedules_executed')
+      if h.sched_error is not None:
+        res.inconc('%s: %s' % (type(h.sched_error).__name__, h.sched_error))
+        return h
+      writes = [e for e in h.backend if e['op'] == 'write']
+      if h.limit_change is None:
+        res.inconc('limit change not observed')
+        return h
+      after = [(e['vt'], 1, 0) for e in writes if e['tick'] > h.limit_change]
+      before = [(e['vt'], 1, 0) for e in writes if e['tick'] <= h.limit_change]
+      res.count('writes_after_limit_change', len(after))
+      wit = dict(ops=ops, deviations=h.deviations, stop_vt=h.stop_vt, writes_after=[a[0] for a in after][:30])
+      # one update may have been granted under the old limits and performed just after the change: capacity + 1 below
+      check_windows(res, before, [(up, up)], 'sched/updates-before-change', wit)
+      check_windows(res, after, [(shut, shut + 0.5)], 'sched/updates-after-change', wit)
+      key = (hash(repr(ops)), h.trace_hash)
+      if key not in seen:
+        seen.add(key)
+        res.case(hash(key), nontrivial=len(after) >= 2)
+      else:
+        res.evaluations += 1
+      return h
+
+    h0 = one(S.DeviationPolicy({}), 'baseline')
+    n0 = h0.decisions
+    budget2 = 300 if cfg['tier'] == 'quick' else 4000
+    stride1 = max(1, n0 // 400) if cfg['tier'] == 'quick' else 1
+    for d in range(0, n0 + 2, stride1):
+      hi = one(S.DeviationPolicy({d: 1}), 'preempt@%d' % d)
+      m = hi.decisions + 2 - (d + 1)
+      take = max(1, budget2 // max(1, (n0 + 2) // stride1))
+      if m > 0:
+        for j in sorted(set(r.randrange(d + 1, hi.decisions + 2) for _ in range(min(take, m)))):
+          one(S.DeviationPolicy({d: 1, j: 1}), 'preempt@%d,%d' % (d, j))
+
+    def hot(frame):
+      return frame.f_code.co_name in ('peek', 'drain', 'setCapacityAndFillRate', 'shutdownModifyUpdateSpeed')
+    for _ in range(250 if cfg['tier'] == 'quick' else 1500):
+      one(S.TargetedPolicy(gen.rng(r.random(), 'tp'), hot, p_hot=r.choice([0.3, 0.6]), p_cold=0.01), 'targeted')
+    res.sample(dict(cfg=cfg['name'], workload=[repr(o) for o in ops[:6]] + ['...'], stores=n1 + n2), cap=2)
+
+
 def run_config(cfg, res):
   if cfg['mode'] == 'bucket':
     run_bucket(cfg, res)
+  elif cfg['mode'] == 'sched':
+    run_sched(cfg, res)
   else:
     run_writer(cfg, res)
 
@@ -214,7 +296,7 @@ def run_config(cfg, res):
 def finalize(merged, tier):
   c = merged['counters']
   out = []
-  for k in ('grant_pairs_checked', 'blocking_waits_checked', 'writer_creates', 'writer_updates'):
+  for k in ('grant_pairs_checked', 'blocking_waits_checked', 'writer_creates', 'writer_updates', 'sched_schedules_executed', 'writes_after_limit_change'):
     if not c.get(k):
       out.append('counter %s is zero' % k)
   return out
